@@ -99,22 +99,32 @@ class RockDb:
             f.truncate(len(self.data))
 
 
-def chain_of(db, url):
-    """Slots carrying url's key, and whether they form exactly one complete chain.
-    -> {"slots": [indices], "inodes": n, "versions": set, "clean": bool}"""
+def chains_of(db, url):
+    """What the db holds under url's store key.
+    -> {"slots": [all slot indices with that key], "complete": [[slot indices] per complete chain], "extra": [slots outside
+        the first complete chain]}
+    A chain is complete when it starts at an inode (firstSlot == own index), every member names that inode and the key,
+    it ends with nextSlot -1 without a cycle and the payload sizes add up to the (single) non-zero entrySize recorded in it."""
     g = db.by_key().get(store_key(url), [])
-    idx = [i for i, _ in g]
-    inodes = [i for i, s in g if s.first == i]
-    versions = set(s.version for _, s in g)
-    clean = False
-    if len(inodes) == 1:
+    d = dict(g)
+    complete = []
+    for i, s in g:
+        if s.first != i:
+            continue
         seen = []
-        cur = inodes[0]
-        d = dict(g)
-        total = 0
-        while cur in d and cur not in seen:
+        cur = i
+        ok = True
+        while cur != -1:
+            if cur not in d or cur in seen or d[cur].first != i:
+                ok = False
+                break
             seen.append(cur)
-            total += d[cur].payload_size
             cur = d[cur].next
-        clean = (cur == -1 and sorted(seen) == sorted(idx) and total == d[inodes[0]].entry_size)
-    return {"slots": idx, "inodes": len(inodes), "versions": versions, "clean": clean}
+        if not ok:
+            continue
+        sizes = set(d[k].entry_size for k in seen if d[k].entry_size)
+        if len(sizes) == 1 and sum(d[k].payload_size for k in seen) == list(sizes)[0]:
+            complete.append(seen)
+    idx = [i for i, _ in g]
+    extra = [i for i in idx if not complete or i not in complete[0]]
+    return {"slots": idx, "complete": complete, "extra": extra}
